@@ -298,7 +298,7 @@ def unchecked_str(rep, f, c, rule, check_class=False, only=None):
             n += 1
             r = Resolver(b)
             x = strip_ref(r.operand(st['args'][0]))
-            conds = block_conditions(b, sbi, r)
+            conds = block_conditions(b, sbi, r, through_joins=True)
             vals = None
             for k, e, v, S in conds:
                 if k == 'bool' and v is True and e[0] == 'bin' and e[1] in ('Eq', 'Ge') and e[3] == ('len', x):
